@@ -715,14 +715,19 @@ impl B<'_> {
             return Facets::default();
         }
         let numeric = base_builtin.is_some_and(|b| matches!(crate::expect::prim_for(b), "i8" | "i16" | "i32" | "i64" | "u8" | "u16" | "u32" | "u64"));
-        let a = i32::from(f.a);
+        // 64-bit bases get bounds beyond 32 bits every third time (ten-digit identifiers and the like)
+        let wide = base_builtin.is_some_and(|b| matches!(b, "long" | "unsignedLong")) && f.b % 2 == 0;
+        let a = if wide { i64::from(f.a) * 1_000_000_007 } else { i64::from(f.a) };
+        if wide {
+            self.stats.feat("facets.bound-beyond-32-bits");
+        }
         let mut out = Facets::default();
         if numeric {
             match f.kind % 5 {
                 0 => {}
                 1 => {
-                    out.min_inclusive = Some(a.min(a + i32::from(f.b)));
-                    out.max_inclusive = Some(a.max(a + i32::from(f.b)));
+                    out.min_inclusive = Some(a.min(a + i64::from(f.b)));
+                    out.max_inclusive = Some(a.max(a + i64::from(f.b)));
                 }
                 2 => out.min_exclusive = Some(a),
                 3 => out.max_exclusive = Some(a),
@@ -753,10 +758,11 @@ impl B<'_> {
             }
             // small carriers: keep the bounds inside the value space of the base
             if let Some(b) = base_builtin {
-                let (lo, hi): (i32, i32) = match b {
+                let (lo, hi): (i64, i64) = match b {
                     "byte" => (-128, 127),
                     "unsignedByte" => (0, 255),
-                    _ => (i32::MIN, i32::MAX),
+                    "long" | "unsignedLong" => (i64::MIN / 2, i64::MAX / 2),
+                    _ => (i32::MIN as i64, i32::MAX as i64),
                 };
                 for v in [&mut out.min_inclusive, &mut out.max_inclusive, &mut out.min_exclusive, &mut out.max_exclusive] {
                     if let Some(x) = v {
